@@ -191,6 +191,115 @@ static void buffer_runs( const char* cls, std::size_t maximum, bool overflow_all
    }
 }
 
+// everything that is run for one (table, input): reference check, the eager memory_input observation, every other input class
+static void run_case( const std::string& s, const char* wname, bool thorough )
+{
+            // the reference interpreter only decides whether the program is well-formed on this input
+            {
+               Buf buf( s );
+               g_begin = buf.p;
+               X.begin( {} );
+               memo.clear();
+               RI.data = buf.p;
+               RI.reset( 500 );
+               bool div = false;
+               try {
+                  (void)RI.ev( 0, 0, int( buf.n ), R::Ctx{ 1, 0, -1, 1 } );
+               }
+               catch( const R::Diverge& ) {
+                  div = true;
+               }
+               if( div ) {
+                  ++n_divergent;
+                  return;
+               }
+            }
+            Obs ref;
+            {
+               p::memory_input< p::tracking_mode::eager, p::eol::lf_crlf, std::string > in( s.data(), s.data() + s.size(), "src" );
+               ref = observe( in );
+            }
+            ++vf::st.evaluations;
+            if( ref.kind == 4 ) return;
+            g_ctx_input = s;
+            g_ctx_wrapper = wname;
+            g_ctx_cls = "memory / file / stream input";
+            auto cmp = [ & ]( const char* cls, const Obs& o ) {
+               ++vf::st.evaluations;
+               X.begin( {} );
+               if( !o.same( ref ) ) report( "result differs from memory_input", cls, 5, s, ref, o, wname );
+            };
+            {
+               p::memory_input< p::tracking_mode::lazy, p::eol::lf_crlf, std::string > in( s.data(), s.data() + s.size(), "src" );
+               cmp( "lazy memory_input", observe( in ) );
+            }
+            {
+               p::string_input<> in( s, "src" );
+               cmp( "string_input", observe( in ) );
+            }
+            if( s.find( '\0' ) == std::string::npos ) {  // argv strings end at the first NUL by definition
+               std::string z = s;  // NUL terminated copy
+               char* av[ 2 ] = { nullptr, z.data() };
+               p::argv_input<> in( av, 1, "src" );
+               cmp( "argv_input", observe( in ) );
+            }
+            {
+               p::read_input<> in( file_for( s ), "src" );
+               cmp( "read_input", observe( in ) );
+            }
+            {
+               p::mmap_input<> in( file_for( s ), "src" );
+               cmp( "mmap_input", observe( in ) );
+            }
+            {
+               p::file_input<> in( file_for( s ), "src" );
+               cmp( "file_input", observe( in ) );
+            }
+            {
+               std::istringstream ss( s );
+               p::istream_input<> in( ss, 16, "src" );
+               cmp( "istream_input", observe( in ) );
+            }
+            {
+               std::string z = s;
+               std::FILE* f = z.empty() ? std::fopen( "/dev/null", "rb" ) : fmemopen( z.data(), z.size(), "rb" );
+               {
+                  p::cstream_input<> in( f, 16, "src" );
+                  cmp( "cstream_input", observe( in ) );
+               }
+               std::fclose( f );
+            }
+            // stock readers behind a tiny buffer: a request that ends exactly at the end of the buffer must not make the library
+            // ask the reader for zero bytes (istream / cstream readers report that as an I/O error)
+            for( std::size_t mx = 1; mx <= 3; ++mx ) {
+               {
+                  std::istringstream ss( s );
+                  p::istream_input< p::eol::lf_crlf, 1 > in( ss, mx, "src" );
+                  const Obs o = observe( in );
+                  ++vf::st.evaluations;
+                  X.begin( {} );
+                  if( o.kind != 3 && !o.same( ref ) ) report( "result differs from memory_input", "istream_input chunk 1, small maximum", 5, s, ref, o, wname );
+               }
+               {
+                  std::string z = s;
+                  std::FILE* f = z.empty() ? std::fopen( "/dev/null", "rb" ) : fmemopen( z.data(), z.size(), "rb" );
+                  {
+                     p::cstream_input< p::eol::lf_crlf, 1 > in( f, mx, "src" );
+                     const Obs o = observe( in );
+                     ++vf::st.evaluations;
+                     X.begin( {} );
+                     if( o.kind != 3 && !o.same( ref ) ) report( "result differs from memory_input", "cstream_input chunk 1, small maximum", 5, s, ref, o, wname );
+                  }
+                  std::fclose( f );
+               }
+            }
+            buffer_runs< 1 >( "buffer_input chunk 1, ample maximum", 16, false, thorough ? 3 : 2, 5, s, ref, wname );
+            buffer_runs< 2 >( "buffer_input chunk 2, ample maximum", 16, false, thorough ? 3 : 2, 5, s, ref, wname );
+            buffer_runs< 64 >( "buffer_input chunk 64, ample maximum", 16, false, 1, 5, s, ref, wname );
+            buffer_runs< 1 >( "buffer_input chunk 1, maximum 1", 1, true, 1, 5, s, ref, wname );
+            buffer_runs< 2 >( "buffer_input chunk 2, maximum 2", 2, true, 1, 5, s, ref, wname );
+         }
+
 int main( int argc, char** argv )
 {
    vf::parse_args( argc, argv );
@@ -199,6 +308,22 @@ int main( int argc, char** argv )
    mkdir( "build", 0777 );
    mkdir( "build/scratch", 0777 );
    mkdir( scratch.c_str(), 0777 );
+   if( vf::args.replay ) {
+      // case = <table of 5 rules>|<input hex>|<input class>|<read pattern>: everything is re-run for that table and input
+      std::set_terminate( on_terminate );
+      auto f = vf::split( vf::args.the_case, '|' );
+      deser_tab( f[ 0 ] );
+      const std::string s = vf::unhex( f[ 1 ] );
+      {
+         std::ofstream fo( file_for( s ), std::ios::binary );
+         fo.write( s.data(), std::streamsize( s.size() ) );
+      }
+      run_case( s, "replay", vf::args.thorough() );
+      std::remove( file_for( s ).c_str() );
+      rmdir( scratch.c_str() );
+      vf::finish();
+      return 0;
+   }
 
    std::set_terminate( on_terminate );
    struct Round
@@ -281,112 +406,7 @@ int main( int argc, char** argv )
                break;
          }
          ++vf::st.states;
-         for( const auto& s : inputs ) {
-            // the reference interpreter only decides whether the program is well-formed on this input
-            {
-               Buf buf( s );
-               g_begin = buf.p;
-               X.begin( {} );
-               memo.clear();
-               RI.data = buf.p;
-               RI.reset( 500 );
-               bool div = false;
-               try {
-                  (void)RI.ev( 0, 0, int( buf.n ), R::Ctx{ 1, 0, -1, 1 } );
-               }
-               catch( const R::Diverge& ) {
-                  div = true;
-               }
-               if( div ) {
-                  ++n_divergent;
-                  continue;
-               }
-            }
-            Obs ref;
-            {
-               p::memory_input< p::tracking_mode::eager, p::eol::lf_crlf, std::string > in( s.data(), s.data() + s.size(), "src" );
-               ref = observe( in );
-            }
-            ++vf::st.evaluations;
-            if( ref.kind == 4 ) continue;
-            g_ctx_input = s;
-            g_ctx_wrapper = wname;
-            g_ctx_cls = "memory / file / stream input";
-            auto cmp = [ & ]( const char* cls, const Obs& o ) {
-               ++vf::st.evaluations;
-               X.begin( {} );
-               if( !o.same( ref ) ) report( "result differs from memory_input", cls, 5, s, ref, o, wname );
-            };
-            {
-               p::memory_input< p::tracking_mode::lazy, p::eol::lf_crlf, std::string > in( s.data(), s.data() + s.size(), "src" );
-               cmp( "lazy memory_input", observe( in ) );
-            }
-            {
-               p::string_input<> in( s, "src" );
-               cmp( "string_input", observe( in ) );
-            }
-            if( s.find( '\0' ) == std::string::npos ) {  // argv strings end at the first NUL by definition
-               std::string z = s;  // NUL terminated copy
-               char* av[ 2 ] = { nullptr, z.data() };
-               p::argv_input<> in( av, 1, "src" );
-               cmp( "argv_input", observe( in ) );
-            }
-            {
-               p::read_input<> in( file_for( s ), "src" );
-               cmp( "read_input", observe( in ) );
-            }
-            {
-               p::mmap_input<> in( file_for( s ), "src" );
-               cmp( "mmap_input", observe( in ) );
-            }
-            {
-               p::file_input<> in( file_for( s ), "src" );
-               cmp( "file_input", observe( in ) );
-            }
-            {
-               std::istringstream ss( s );
-               p::istream_input<> in( ss, 16, "src" );
-               cmp( "istream_input", observe( in ) );
-            }
-            {
-               std::string z = s;
-               std::FILE* f = z.empty() ? std::fopen( "/dev/null", "rb" ) : fmemopen( z.data(), z.size(), "rb" );
-               {
-                  p::cstream_input<> in( f, 16, "src" );
-                  cmp( "cstream_input", observe( in ) );
-               }
-               std::fclose( f );
-            }
-            // stock readers behind a tiny buffer: a request that ends exactly at the end of the buffer must not make the library
-            // ask the reader for zero bytes (istream / cstream readers report that as an I/O error)
-            for( std::size_t mx = 1; mx <= 3; ++mx ) {
-               {
-                  std::istringstream ss( s );
-                  p::istream_input< p::eol::lf_crlf, 1 > in( ss, mx, "src" );
-                  const Obs o = observe( in );
-                  ++vf::st.evaluations;
-                  X.begin( {} );
-                  if( o.kind != 3 && !o.same( ref ) ) report( "result differs from memory_input", "istream_input chunk 1, small maximum", 5, s, ref, o, wname );
-               }
-               {
-                  std::string z = s;
-                  std::FILE* f = z.empty() ? std::fopen( "/dev/null", "rb" ) : fmemopen( z.data(), z.size(), "rb" );
-                  {
-                     p::cstream_input< p::eol::lf_crlf, 1 > in( f, mx, "src" );
-                     const Obs o = observe( in );
-                     ++vf::st.evaluations;
-                     X.begin( {} );
-                     if( o.kind != 3 && !o.same( ref ) ) report( "result differs from memory_input", "cstream_input chunk 1, small maximum", 5, s, ref, o, wname );
-                  }
-                  std::fclose( f );
-               }
-            }
-            buffer_runs< 1 >( "buffer_input chunk 1, ample maximum", 16, false, thorough ? 3 : 2, 5, s, ref, wname );
-            buffer_runs< 2 >( "buffer_input chunk 2, ample maximum", 16, false, thorough ? 3 : 2, 5, s, ref, wname );
-            buffer_runs< 64 >( "buffer_input chunk 64, ample maximum", 16, false, 1, 5, s, ref, wname );
-            buffer_runs< 1 >( "buffer_input chunk 1, maximum 1", 1, true, 1, 5, s, ref, wname );
-            buffer_runs< 2 >( "buffer_input chunk 2, maximum 2", 2, true, 1, 5, s, ref, wname );
-         }
+         for( const auto& s : inputs ) run_case( s, wname, thorough );
       }
       tab[ 0 ] = save0;
       tab[ 1 ] = save1;
